@@ -25,7 +25,8 @@ def runner_tasks(tier):
     return [{"module": "c06", "task": "eval_tables", "kind": "eval", "clause": "served values vs embedded tables, both tables"},
             {"module": "c06", "task": "density_algebra", "kind": "eval", "clause": "isotope density, number density, distance; all atoms"},
             {"module": "c06", "task": "parse_uncertainty_cells", "kind": "bounded", "clause": "notations: all table cells (complete) + synthetic strings (bounded)"},
-            {"module": "stateful", "task": "C06", "name": "stateful C06", "kind": "bounded", "clause": "a private table serves the embedded values whatever other data module was initialised on it first"}]
+            {"module": "stateful", "task": "C06", "name": "stateful C06", "kind": "bounded", "clause": "a private table serves the embedded values whatever other data module was initialised on it first"},
+            {"module": "independence", "task": "observations", "name": "independence", "kind": "bounded", "arg": {"tags": ["C06"]}, "clause": "fixed observations give the same value as the first use of the library in a fresh interpreter, in a warmed-up interpreter (twice) and in reverse order, and have their documented value", "timeout": 900}]
 
 
 REPLAY = {"module": "c06", "task": "replay"}
